@@ -93,6 +93,27 @@ theorem write_eq_model (w id : Bytes) (desc : Option Bytes) (seq : Bytes) (wrap 
        have hne : n ≠ 0 := by omega
        simp [Gen.SrcFasta.write, writeRecordHeader_eq_model, writeFastaRec, Rs.expect, hchunks n hn, hf, hl, hpos, hne])
 
+/-- **`Writer::write_record`** = `write` on the record's accessors `id()`, `desc()`, `seq()` (all translated) -/
+theorem writeRecord_eq_model (w : Bytes) (r : FaRec) (wrap : Option Nat) (hw : ∀ n, wrap = some n → 1 ≤ n) :
+    Gen.SrcFasta.writeRecord writeAllOp w wrap r.id r.desc r.seq = Res.ok (.ok (), w ++ writeFastaRec wrap r) := by
+  cases r with
+  | mk i d sq =>
+    have h := write_eq_model w i d sq wrap hw
+    cases d <;>
+      simp [Gen.SrcFasta.writeRecord, Gen.SrcFasta.recordId, Gen.SrcFasta.recordDesc, Gen.SrcFasta.recordSeq] at h ⊢ <;>
+      simp [h]
+
+/-- **constructors**: `Reader::from_bufread` starts with an empty look-ahead line, `Reader::records` with the error flag
+cleared (the initial state of `fasta_records_source_eq_model`), `Writer::from_bufwriter` without line wrap, `set_linewrap`
+stores its argument -/
+theorem ctors_eq {ρ ω : Type} (b : ρ) (l : Bytes) (w : ω) (lw lw' : Option Nat) :
+    Gen.SrcFasta.readerFromBufread b = Res.ok (b, []) ∧
+    Gen.SrcFasta.readerRecords b l = Res.ok ((b, l), false) ∧
+    Gen.SrcFasta.writerFromBufwriter w = Res.ok (w, none) ∧
+    Gen.SrcFasta.writerSetLinewrap lw lw' = Res.ok ((), lw') := by
+  simp [Gen.SrcFasta.readerFromBufread, Gen.SrcFasta.readerRecords, Gen.SrcFasta.writerFromBufwriter,
+    Gen.SrcFasta.writerSetLinewrap]
+
 /-! ## Reader -/
 
 /-- the error `read_line` returns for a line that is not valid UTF-8 -/
